@@ -167,12 +167,83 @@ def _backends(ctx: Context) -> None:
     rep.floor("C16.R3", "blocking calls in backend methods and event waits", count, 18)
 
 
+def _run_to(stmts: list[ast.stmt], target: ast.AST, env: dict, peval, UNKNOWN) -> str:
+    """Interpret straight-line code with foldable branches up to the statement containing `target`.
+    Returns 'hit' (env is the state just before it), 'miss' (not on this path) or 'unknown'."""
+    for st in stmts:
+        if any(x is target for x in ast.walk(st)) and not isinstance(st, (ast.If, ast.With, ast.AsyncWith, ast.Try, ast.For, ast.AsyncFor, ast.While)):
+            return "hit"
+        if isinstance(st, (ast.Assign, ast.AnnAssign)):
+            tg = st.targets[0] if isinstance(st, ast.Assign) else st.target
+            if isinstance(tg, ast.Name) and getattr(st, "value", None) is not None:
+                env[tg.id] = peval(st.value, env)
+        elif isinstance(st, ast.If):
+            c = peval(st.test, env)
+            if c is UNKNOWN:
+                if any(x is target for x in ast.walk(st)):
+                    return "unknown"
+                # both branches may assign: forget what they write
+                for x in ast.walk(st):
+                    if isinstance(x, ast.Name) and isinstance(x.ctx, ast.Store):
+                        env[x.id] = UNKNOWN
+                continue
+            r = _run_to(st.body if c else st.orelse, target, env, peval, UNKNOWN)
+            if r != "miss":
+                return r
+            if any(x is target for x in ast.walk(st)):
+                return "miss"
+        elif isinstance(st, (ast.With, ast.AsyncWith)):
+            if any(x is target for it in st.items for x in ast.walk(it.context_expr)):
+                return "hit"
+            r = _run_to(st.body, target, env, peval, UNKNOWN)
+            if r != "miss":
+                return r
+        elif isinstance(st, ast.Try):
+            r = _run_to(st.body, target, env, peval, UNKNOWN)
+            if r != "miss":
+                return r
+        elif isinstance(st, (ast.For, ast.AsyncFor, ast.While)):
+            if any(x is target for x in ast.walk(st)):
+                r = _run_to(st.body, target, env, peval, UNKNOWN)
+                return r if r != "miss" else "unknown"
+        elif isinstance(st, (ast.Return, ast.Raise)):
+            return "miss"
+    return "miss"
+
+
+def _faithful(ctx: Context, e: ast.AST, f: FuncInfo, at: ast.AST) -> str | None:
+    """The bound handed to the runtime is the configured value itself: equal to `timeout` for every number - in particular 0,
+    which means 'do not wait at all' - and unbounded (None / inf) only for None.  The function is interpreted up to the
+    bounding site for timeout in {0, 0.0, 2.5, None} (assignments and foldable branches).  Returns a problem text or None."""
+    from ..norm import UNKNOWN, peval
+
+    INF = 10**12
+    for v in (0, 0.0, 2.5, None):
+        env: dict = {"timeout": v, "float('inf')": INF, 'float("inf")': INF, "math.inf": INF}
+        r = _run_to(f.node.body, e, env, peval, UNKNOWN)
+        if r != "hit":
+            if r == "miss" and v is None:
+                continue
+            return None if r == "unknown" else None
+        got = peval(e, env)
+        if got is UNKNOWN:
+            return None   # not foldable: left to the name-based test
+        if v is None and got not in (None, INF):
+            return f"`{ast.unparse(e)}` is {got!r} for an absent timeout (must be unbounded)"
+        if v is not None and (got is None or got == INF or got != v):
+            return f"`{ast.unparse(e)}` evaluates to {'no limit' if got in (None, INF) else repr(got)} for timeout={v!r}: a configured limit of {v!r} is not applied"
+    return None
+
+
 def _bounded(ctx: Context, f: FuncInfo, cfg, b: ast.AST) -> tuple[bool, str]:
     # (c) the call itself takes the timeout
     call = b.value if isinstance(b, ast.Await) else b
     if isinstance(call, ast.Call):
         for a in list(call.args) + [k.value for k in call.keywords]:
             if _uses_timeout(ctx, a, f, b):
+                bad = _faithful(ctx, a, f, b)
+                if bad:
+                    return False, bad
                 return True, f"timeout passed as argument of `{ast.unparse(call.func)}`"
     # (a) enclosing fail_after(T) scope
     p = parent(b)
@@ -182,6 +253,9 @@ def _bounded(ctx: Context, f: FuncInfo, cfg, b: ast.AST) -> tuple[bool, str]:
                 ce = item.context_expr
                 if isinstance(ce, ast.Call) and (chain(ce.func) or [""])[-1] in ("fail_after", "move_on_after") and ce.args:
                     if _uses_timeout(ctx, ce.args[0], f, p):
+                        bad = _faithful(ctx, ce.args[0], f, p)
+                        if bad:
+                            return False, bad
                         return True, f"inside `{ast.unparse(ce)}`"
                     return False, f"enclosing `{ast.unparse(ce)}` does not take the timeout parameter"
         p = parent(p)
@@ -199,6 +273,9 @@ def _bounded(ctx: Context, f: FuncInfo, cfg, b: ast.AST) -> tuple[bool, str]:
         good = [(n, c) for n, c in setters if _uses_timeout(ctx, c.args[0], f, c) and (cfg.dominates(n, bn) or n is bn)]
         wrong = [(n, c) for n, c in setters if not _uses_timeout(ctx, c.args[0], f, c)]
         if good and not wrong:
+            bad = _faithful(ctx, good[0][1].args[0], f, good[0][1])
+            if bad:
+                return False, bad
             return True, f"`{ast.unparse(good[0][1])}` dominates the blocking call"
         if wrong:
             return False, f"`{ast.unparse(wrong[0][1])}` does not apply the timeout parameter"
